@@ -1286,7 +1286,7 @@ class Object( object ):
             result	       += USINT.produce(	data.service )
             result	       += b'\x00' # reserved
             result	       += status.produce( 	data )
-        elif cls.SV_COD_CTX in data and data.get( 'service' ):
+        elif cls.SV_COD_CTX in data and data.get( 'service' ) and not data.service & 0x80:
             # Generic CIP Service Code + EPATH, with possible (typed) data payload supplied.
             result	       += USINT.produce(	data.service )
             result	       += EPATH.produce(	data.path )
